@@ -62,6 +62,21 @@ Commit(b, p, blob, age) ==
   /\ UNCHANGED <<rr, rt, server, everRemote>>
   /\ Log([a |-> "commit", b |-> b, p |-> p, blob |-> blob, age |-> age])
 
+\* one commit that rewrites several paths at once (t: the complete new tree)
+CommitTree(b, t, age) ==
+  /\ Len(commits) < MaxCommits
+  /\ (b # "main" => br["main"] # NoCommit)
+  /\ LET parent == IF br[b] = NoCommit /\ b # "main" THEN br["main"] ELSE br[b]
+         c == [par |-> IF parent = NoCommit THEN {} ELSE {parent}, tree |-> t, age |-> age]
+     IN /\ Cardinality({p \in Paths : TreeOf(parent)[p] # t[p]}) >= 2
+        /\ (parent # NoCommit => age <= commits[parent].age)
+        /\ commits' = Append(commits, c)
+        /\ br' = [br EXCEPT ![b] = Len(commits) + 1]
+  /\ head' = b
+  /\ local' = [o \in Oids |-> IF (\E p \in Paths : t[p] = o) /\ local[o] = "absent" THEN "valid" ELSE local[o]]
+  /\ UNCHANGED <<rr, rt, server, everRemote>>
+  /\ Log([a |-> "committree", b |-> b, tree |-> t, age |-> age])
+
 \* git checkout b; git merge o  (no conflicts: b's entries win, o fills the gaps)
 Merge(b, o) ==
   /\ Len(commits) < MaxCommits /\ b # o /\ br[b] # NoCommit /\ br[o] # NoCommit
